@@ -457,10 +457,7 @@ func c04Cases(c runCfg) ([]*scratch.Pkg, []string, map[string]interface{}) {
 						cells = append(cells, cell{sc, loc, req, via, lvl, false})
 					}
 				}
-				if !strings.HasSuffix(loc, "arr") {
-					// (nullable array ITEMS are a C01 cell: `[]Nullable[string]` does not compile, D30)
-					cells = append(cells, cell{sc, loc, req, "inline", "op", true})
-				}
+				cells = append(cells, cell{sc, loc, req, "inline", "op", true})
 			}
 		}
 	}
